@@ -286,11 +286,7 @@ package frugal
 
 // Every failure while writing the reply goes through trapError, which turns an overflow into a
 // RESPONSE_TOO_LARGE exception message; nothing else is returned.
-//@ func lib.FBaseProcessorFunction.SendReply
-//@   ensures result != nil ==> ncalls("lib.FBaseProcessorFunction.trapError") == 1
-//@   ensures result != nil ==> result == callret("lib.FBaseProcessorFunction.trapError", 0, 0)
-//@   ensures ncalls("lib.FBaseProcessorFunction.trapError") <= 1
-//@   modifies *
+// (the contract of SendReply is stated once, in the C14 section below)
 
 // The client buffers requests in a buffer limited to what the transport says it can carry.
 //@ func lib.NewFStandardClient
@@ -305,7 +301,14 @@ package frugal
 
 // The server buffers each reply in a fresh buffer limited to the NATS message size and publishes
 // exactly when there is something to send.
+//@ immutable lib.frameWrapper.reply, lib.frameWrapper.frameBytes, lib.frameWrapper.ephemeralProperties
+// One frame: fresh input and output buffers, one Process call, and the reply is published to the frame's
+// own reply subject exactly when the processor left something in the output buffer (C14).
 //@ func lib.fNatsServer.processFrame
+//@   ensures ncalls("lib.FProcessor.Process") <= 1 && ncalls("nats.go.Conn.Publish") <= 1
+//@   ensures ncalls("nats.go.Conn.Publish") == 1 ==> callarg("nats.go.Conn.Publish", 0, 1) == frame.reply && ncalls("lib.FProcessor.Process") == 1 && callret("lib.FProcessor.Process", 0, 0) == nil && callret("lib.TMemoryOutputBuffer.HasWriteData", 0, 0)
+//@   ensures ncalls("lib.FProcessor.Process") == 1 && callret("lib.FProcessor.Process", 0, 0) == nil && callret("lib.TMemoryOutputBuffer.HasWriteData", 0, 0) ==> ncalls("nats.go.Conn.Publish") == 1 && result == callret("nats.go.Conn.Publish", 0, 0)
+//@   ensures ncalls("lib.FProcessor.Process") == 1 ==> fresh(callarg("lib.FProcessor.Process", 0, 1)) && fresh(callarg("lib.FProcessor.Process", 0, 2)) && callarg("lib.FProcessor.Process", 0, 1) != callarg("lib.FProcessor.Process", 0, 2)
 //@   ensures ncalls("lib.NewTMemoryOutputBuffer") <= 1
 //@   ensures ncalls("lib.NewTMemoryOutputBuffer") == 1 ==> callarg("lib.NewTMemoryOutputBuffer", 0, 0) == natsMaxMessageSize
 //@   ensures ncalls("nats.go.Conn.Publish") == 1 ==> len(callarg("nats.go.Conn.Publish", 0, 2)) <= natsMaxMessageSize
@@ -704,4 +707,89 @@ package frugal
 //@ func lib.fHTTPTransport.Oneway
 //@   requires h.requestSizeLimit <= 9223372036854775807
 //@   requires h.requestSizeLimit == 0 || h.requestSizeLimit >= 4
+//@   modifies *
+
+// ---- server replies (C14) -----------------------------------------------------------------------------------------
+// Message types: CALL=1 REPLY=2 EXCEPTION=3. The five calls below, once each and in this order, are one
+// complete framed message on the output protocol.
+
+// Process: a header error writes nothing; a known method is handed to its processor function exactly once
+// with the context just read; an unknown method gets exactly one UNKNOWN_METHOD exception message,
+// written while the processor's write mutex is held.
+//@ func lib.FBaseProcessor.Process
+//@   ensures ncalls("lib.FProtocol.ReadRequestHeader") == 1
+//@   ensures callret("lib.FProtocol.ReadRequestHeader", 0, 1) != nil ==> result == callret("lib.FProtocol.ReadRequestHeader", 0, 1) && ncalls("lib.FProtocol.WriteResponseHeader") == 0 && ncalls("thrift.TProtocol.WriteMessageBegin") == 0 && ncalls("thrift.TProtocol.Flush") == 0 && ncalls("lib.FProcessorFunction.Process") == 0
+//@   ensures ncalls("lib.FProcessorFunction.Process") <= 1
+//@   ensures ncalls("lib.FProcessorFunction.Process") == 1 ==> result == nil && callarg("lib.FProcessorFunction.Process", 0, 1) == callret("lib.FProtocol.ReadRequestHeader", 0, 0) && callarg("lib.FProcessorFunction.Process", 0, 2) == iprot && callarg("lib.FProcessorFunction.Process", 0, 3) == oprot
+//@   ensures ncalls("lib.FProcessorFunction.Process") == 1 ==> ncalls("lib.FProtocol.WriteResponseHeader") == 0 && ncalls("thrift.TProtocol.Flush") == 0
+//@   ensures result == nil && ncalls("lib.FProcessorFunction.Process") == 0 ==> ncalls("lib.FProtocol.WriteResponseHeader") == 1 && ncalls("thrift.TProtocol.WriteMessageBegin") == 1 && ncalls("thrift.TApplicationException.Write") == 1 && ncalls("thrift.TProtocol.WriteMessageEnd") == 1 && ncalls("thrift.TProtocol.Flush") == 1
+//@   ensures result == nil && ncalls("lib.FProcessorFunction.Process") == 0 ==> inorder("lib.FProtocol.WriteResponseHeader", "thrift.TProtocol.WriteMessageBegin", "thrift.TApplicationException.Write", "thrift.TProtocol.WriteMessageEnd", "thrift.TProtocol.Flush")
+//@   ensures result == nil && ncalls("lib.FProcessorFunction.Process") == 0 ==> callarg("lib.FProtocol.WriteResponseHeader", 0, 1) == callret("lib.FProtocol.ReadRequestHeader", 0, 0) && callarg("thrift.TProtocol.WriteMessageBegin", 0, 3) == 3 && callarg("thrift.TProtocol.WriteMessageBegin", 0, 2) == callret("thrift.TProtocol.ReadMessageBegin", 0, 0) && callarg("thrift.NewTApplicationException", 0, 0) == APPLICATION_EXCEPTION_UNKNOWN_METHOD
+//@   ensures ncalls("lib.FProtocol.WriteResponseHeader") == 1 ==> nheld("lib.FProtocol.WriteResponseHeader", 0) == 1
+//@   ensures ncalls("thrift.TProtocol.Flush") == 1 ==> nheld("thrift.TProtocol.Flush", 0) == 1
+//@   modifies *
+
+// SendReply: success is exactly one REPLY message for the method, written under the write mutex.
+//@ func lib.FBaseProcessorFunction.SendReply
+//@   ensures result == nil && ncalls("lib.FBaseProcessorFunction.trapError") == 0 ==> ncalls("lib.FProtocol.WriteResponseHeader") == 1 && ncalls("thrift.TProtocol.WriteMessageBegin") == 1 && ncalls("thrift.TStruct.Write") == 1 && ncalls("thrift.TProtocol.WriteMessageEnd") == 1 && ncalls("thrift.TProtocol.Flush") == 1
+//@   ensures result == nil && ncalls("lib.FBaseProcessorFunction.trapError") == 0 ==> inorder("lib.FProtocol.WriteResponseHeader", "thrift.TProtocol.WriteMessageBegin", "thrift.TStruct.Write", "thrift.TProtocol.WriteMessageEnd", "thrift.TProtocol.Flush")
+//@   ensures ncalls("thrift.TProtocol.WriteMessageBegin") == 1 ==> callarg("thrift.TProtocol.WriteMessageBegin", 0, 2) == method && callarg("thrift.TProtocol.WriteMessageBegin", 0, 3) == 2 && callarg("thrift.TProtocol.WriteMessageBegin", 0, 4) == 0
+//@   ensures ncalls("lib.FProtocol.WriteResponseHeader") == 1 && callarg("lib.FProtocol.WriteResponseHeader", 0, 1) == fctx && nheld("lib.FProtocol.WriteResponseHeader", 0) == 1
+//@   ensures ncalls("thrift.TProtocol.Flush") == 1 ==> nheld("thrift.TProtocol.Flush", 0) == 1
+//@   ensures result != nil ==> ncalls("lib.FBaseProcessorFunction.trapError") == 1
+//@   ensures result != nil ==> result == callret("lib.FBaseProcessorFunction.trapError", 0, 0)
+//@   ensures ncalls("lib.FBaseProcessorFunction.trapError") <= 1
+//@   modifies *
+
+// sendError: exactly one EXCEPTION message of the given kind, for the given context and method.
+//@ func lib.FBaseProcessorFunction.sendError
+//@   ensures ncalls("thrift.NewTApplicationException") == 1 && callarg("thrift.NewTApplicationException", 0, 0) == kind && callarg("thrift.NewTApplicationException", 0, 1) == message && result == callret("thrift.NewTApplicationException", 0, 0)
+//@   ensures ncalls("lib.FProtocol.WriteResponseHeader") == 1 && ncalls("thrift.TProtocol.WriteMessageBegin") == 1 && ncalls("thrift.TApplicationException.Write") == 1 && ncalls("thrift.TProtocol.WriteMessageEnd") == 1 && ncalls("thrift.TProtocol.Flush") == 1
+//@   ensures inorder("lib.FProtocol.WriteResponseHeader", "thrift.TProtocol.WriteMessageBegin", "thrift.TApplicationException.Write", "thrift.TProtocol.WriteMessageEnd", "thrift.TProtocol.Flush")
+//@   ensures callarg("lib.FProtocol.WriteResponseHeader", 0, 1) == fctx && callarg("thrift.TProtocol.WriteMessageBegin", 0, 2) == method && callarg("thrift.TProtocol.WriteMessageBegin", 0, 3) == 3
+//@   modifies *
+
+//@ func lib.FBaseProcessorFunction.SendError
+//@   ensures ncalls("lib.FBaseProcessorFunction.sendError") == 1 && nheld("lib.FBaseProcessorFunction.sendError", 0) == 1
+//@   ensures callarg("lib.FBaseProcessorFunction.sendError", 0, 2) == fctx && callarg("lib.FBaseProcessorFunction.sendError", 0, 3) == oprot && callarg("lib.FBaseProcessorFunction.sendError", 0, 4) == kind && result == callret("lib.FBaseProcessorFunction.sendError", 0, 0)
+//@   modifies *
+
+// A connection is served until its processor reports an error (EOF ends it quietly).
+//@ func lib.FSimpleServer.accept
+//@   ensures lastcallret("lib.FProcessor.Process", 0) != nil
+//@   modifies *
+
+// ---- NATS server shutdown (C20) ---------------------------------------------------------------------------------------
+
+//@ immutable lib.fNatsServer.workC, lib.fNatsServer.quit, lib.fNatsServer.conn, lib.fNatsServer.workerCount, lib.fNatsServer.subjects
+
+// Serve, after the quit signal: drain NATS, tell Stop, close the work queue, wait for the workers - in
+// exactly this order - and only then return.
+//@ func lib.fNatsServer.Serve
+//@   ensures result == nil ==> inorder("recv:lib.fNatsServer.quit", "call:lib.fNatsServer.drainNatsMessages", "send:", "close:lib.fNatsServer.workC", "call:sync.WaitGroup.Wait")
+//@   ensures result == nil ==> ncalls("lib.fNatsServer.drainNatsMessages") == 1 && ncalls("sync.WaitGroup.Wait") == 1
+//@   ensures result == nil ==> sendval(0) == callret("lib.fNatsServer.drainNatsMessages", 0, 0)
+//@   ensures result == nil && f.workerCount <= 9223372036854775807 ==> callarg("sync.WaitGroup.Add", 0, 1) == f.workerCount
+//@   modifies *
+//@   loop 0 invariant f == f0 && 0 - 1 <= rangeindex && rangeindex <= len(f.subjects)
+//@   loop 1 invariant f == f0
+
+// drainNatsMessages: success means every subscription was drained, then the connection flushed, then a
+// barrier posted and its callback awaited.
+//@ func lib.fNatsServer.drainNatsMessages
+//@   ensures result == nil ==> forall(j, 0, len(subs), drained(subs[j]) >= old(drained(subs[j])) + 1)
+//@   ensures result == nil ==> ncalls("nats.go.Conn.Flush") == 1 && ncalls("nats.go.Conn.Barrier") == 1 && inorder("call:nats.go.Conn.Flush", "call:nats.go.Conn.Barrier", "recv:")
+//@   modifies *
+//@   loop 0 invariant subs == subs0 && 0 - 1 <= rangeindex && rangeindex < len(subs) && forall(j, 0, rangeindex + 1, drained(subs[j]) >= old(drained(subs[j])) + 1) && forall(j, 0, len(subs), drained(subs[j]) >= old(drained(subs[j])))
+
+// Stop: hand Serve a completion channel, close quit, and wait for Serve's answer.
+//@ func lib.fNatsServer.Stop
+//@   ensures inorder("send:lib.fNatsServer.quit", "close:lib.fNatsServer.quit", "recv:")
+//@   ensures nsends() == 1
+//@   modifies *
+
+// handler: exactly one enqueue of the message's bytes and reply subject, unless it has no reply subject.
+//@ func lib.fNatsServer.handler
+//@   ensures msg.Reply == "" ==> nsends() == 0
+//@   ensures msg.Reply != "" ==> nsends() == 1 && sendchan(0) == f.workC
 //@   modifies *
